@@ -2,8 +2,15 @@
 from .fsm_common import fsm_job
 from .sync_common import *
 
-INFO = {"outside": "wip", "assumptions": []}
-MANIFEST = {"text": "wip", "note": "wip"}
+INFO = {
+    "outside": 'more than B interactions without passing through an SInv state (none: SInv is asserted at every interaction)',
+    "assumptions": ['rtr_sync / rtr_wait_for_sync contracts (asserted on the real functions in the rtr_sync and wait units)', 'SInv for the arbitrary start state'],
+}
+MANIFEST = {
+    "text": 'Two solver-checked layers: (a) the real rtr_fsm_start loop with the real query senders, entered in an ARBITRARY socket state under the inductive invariant SInv, for B environment interactions (sync outcomes, faults, clock, 16-bit sessions and 32-bit serials incl. wrap-around symbolic): a wire monitor decodes every query and demands Serial Query(s,n) of the last completed synchronisation or a Reset Query after Cache Reset / no-data / expiry / stop; SInv is re-asserted at every step, so the k-step result extends to runs of any length. (b) the real rtr_sync on exchange skeletons: a Cache Response or End of Data with a foreign session fails and applies nothing.',
+    "note": 'Bounded: B = 6 (quick) / 10 (thorough) interactions from an arbitrary SInv state; rtr_sync is represented in (a) by its contract stub whose clauses are asserted on the real function in (b). Hook RTRLIB_VERIF_FSM_KEEP_STATE lets the loop start in any state.',
+    "technique": 'CBMC k-step induction on real rtr_fsm_start with contract stubs + rtr_sync skeleton unit',
+}
 
 
 def jobs(tier):
